@@ -176,7 +176,7 @@ fn build_world(w: &WorldSpec) -> ChainBuilder {
                 // if anything about them is computed inside a parallel region
                 let same = w.name.contains("same script");
                 let outs2: Vec<TxOut> = (0..*n_out).map(|k| TxOut { value: 60 * COIN_VALUE + k as u64, script: script::p2pkh(&script::h20(if same { 7 } else { ti as u8 * 16 + k as u8 })) }).collect();
-                txs.push(Tx { version: 1, segwit: false, inputs: (0..4).map(|j| TxIn::spend([0xe0 + ti as u8; 32], j)).collect(), outputs: outs2, locktime: 0 });
+                txs.push(Tx { version: 1, segwit: false, inputs: (0..4).map(|j| TxIn::spend([0xe0 + ti as u8; 32], j)).collect(), outputs: outs2, locktime: 0, wide: 0 });
                 let _ = outs;
             }
         }
@@ -571,7 +571,7 @@ fn pool_part(rep: &mut Report, root: &Path) {
         let mut cb = ChainBuilder::at(c, 0);
         let mut all = vec![coinbase(0, 3, vec![TxOut { value: 5, script: script::p2pkh(if wi == 1 { &hk } else { &h }) }])];
         for (k, outs) in txs.iter().enumerate() {
-            all.push(Tx { version: 1, segwit: false, inputs: vec![TxIn::spend([0xee; 32], k as u32)], outputs: outs.clone(), locktime: 0 });
+            all.push(Tx { version: 1, segwit: false, inputs: vec![TxIn::spend([0xee; 32], k as u32)], outputs: outs.clone(), locktime: 0, wide: 0 });
         }
         cb.push_raw(all);
         let world = World::simple(c, &cb.blocks, 0);
@@ -647,7 +647,7 @@ fn big_block_part(rep: &mut Report, root: &Path) {
         if k % 7 == 0 {
             outs.push(TxOut { value: 0, script: script::op_return(format!("tx {}", k).as_bytes()) });
         }
-        let tx = Tx { version: 1, segwit: false, inputs: vec![match prev { Some(p) => TxIn::spend(p, 0), None => TxIn::spend([0xee; 32], 0) }], outputs: outs, locktime: k as u32 };
+        let tx = Tx { version: 1, segwit: false, inputs: vec![match prev { Some(p) => TxIn::spend(p, 0), None => TxIn::spend([0xee; 32], 0) }], outputs: outs, locktime: k as u32, wide: 0 };
         prev = Some(tx.txid());
         txs.push(tx);
     }
